@@ -37,6 +37,15 @@ def c13_desc(rng, nstructs, aligned):
             for f in s["fields"]:
                 f["type"] = fix(f["type"])
             s["fields"].sort(key=lambda f: f["id"])
+    else:
+        # every variable-size and multi-byte constructor once at a bit offset that is not a multiple of 8 (decoding of canonical
+        # bytes must follow the bit cursor there), in id order so that only the offset is unusual
+        lead = rng.choice([1, 3, 5, 7])
+        desc["structs"].append({"name": "Odd0", "fields": [
+            {"name": "a", "id": 0, "type": ("u", lead)}, {"name": "s", "id": 1, "type": ("str",)}, {"name": "b", "id": 2, "type": ("u", 8 - lead)}]})
+        desc["structs"].append({"name": "Odd1", "fields": [
+            {"name": "a", "id": 0, "type": ("u", lead)}, {"name": "l", "id": 1, "type": ("dyn", ("str",))},
+            {"name": "o", "id": 2, "type": ("opt", ("u", 16))}, {"name": "f", "id": 3, "type": ("f32",)}, {"name": "w", "id": 4, "type": ("arr", ("u", 8), 2)}]})
     return desc
 
 
@@ -118,7 +127,7 @@ def run(chk):
     from fcp.reflection import get_reflection_schema
     from fcp.specs.type import StructType
     quick = chk.tier == "quick"
-    nsch, nstructs, nval = (3, 8, 24) if quick else (32, 10, 70)
+    nsch, nstructs, nval = (4, 8, 30) if quick else (32, 10, 70)
     broken = chk.proof_obligations(["Corr/Dyn.vo"])
     chk.coverage["rule"] = (
         "schemas of ~8 structs (every constructor; half of them with whole-byte scalars declared in id order, half unrestricted) shipped as the "
